@@ -322,9 +322,10 @@ class MessageQueue(Entity):
 
         yield self._delivery_latency
 
-        # Create delivery event
+        # Create delivery event, stamped with the instant the delivery latency has
+        # elapsed (not the instant captured before the wait, which is in the past)
         delivery_event = Event(
-            time=now,
+            time=self._clock.now if self._clock else now,
             event_type="message_delivery",
             target=consumer,
             context={
